@@ -237,18 +237,27 @@ Proof.
   - intros q Hq. apply (Permutation_in _ (Permutation_sym P)). apply in_seq. lia.
   - rewrite (Permutation_length P). apply seq_length.
 Qed.
-Theorem round_progress l s : good s -> round l -> final s = false -> good (run l s) /\ Phi (run l s) + 1 <= Phi s.
+(* a weak round: every rank gets at least one turn, the helpers fewer than n turns altogether (rank 0 any number) *)
+Definition wround (l : list nat) : Prop := Forall (fun r => r < n) l /\ (forall q, q < n -> In q l) /\ helpers l + 1 <= n.
+Lemma round_wround l : round l -> wround l.
 Proof.
-  intros G R Fn. destruct (round_facts l R) as (F & Hall & Len). destruct (run_bound l s G F) as (G' & _ & _). split; [exact G'|].
+  intros R. destruct (round_facts l R) as (F & Hall & Len). split; [exact F|]. split; [exact Hall|].
+  pose proof (helpers_le l (Hall 0 ltac:(lia))). lia.
+Qed.
+Theorem wround_progress l s : good s -> wround l -> final s = false -> good (run l s) /\ Phi (run l s) + 1 <= Phi s.
+Proof.
+  intros G (F & Hall & Hh) Fn. destruct (run_bound l s G F) as (G' & _ & _). split; [exact G'|].
   destruct G as [HI PL]. pose proof (i_pc0 _ _ _ HI) as P0.
   assert (Ph : sending (pc_of s 0) = true \/ late (pc_of s 0) = true).
   { destruct (pc_of s 0) as [|f|f src|k| | | | | |]; try discriminate PL; try (destruct P0; fail); try (right; reflexivity); try (left; reflexivity);
       destruct f; try discriminate PL; right; reflexivity. }
   destruct Ph as [Hs|Hl].
-  - pose proof (run_sending l s (conj HI PL) F Hs (Hall 0 ltac:(lia))) as B. pose proof (helpers_le l (Hall 0 ltac:(lia))) as Hh. unfold A in *. lia.
+  - pose proof (run_sending l s (conj HI PL) F Hs (Hall 0 ltac:(lia))) as B. unfold A in *. lia.
   - destruct (deadlock_free n sync target n_pos s HI) as [Ff|(q & Hq & En)]; [congruence|].
     apply (run_late l s q (conj HI PL) F Hl (Hall q Hq)). apply enabled_step. exact En.
 Qed.
+Theorem round_progress l s : good s -> round l -> final s = false -> good (run l s) /\ Phi (run l s) + 1 <= Phi s.
+Proof. intros G R. apply wround_progress; [exact G|apply round_wround; exact R]. Qed.
 
 Lemma final_stable l : forall s, final s = true -> run l s = s.
 Proof.
@@ -261,8 +270,8 @@ Qed.
 Lemma run_app' a : forall b s, run (a ++ b) s = run b (run a s).
 Proof. induction a as [|r a IH]; intros b s; [reflexivity|]. cbn [app run]. destruct (step s r); apply IH. Qed.
 
-(* once rank 0 has left its loop, Phi(s) rounds - each a permutation of the ranks - complete the call *)
-Theorem late_rounds_finish rounds : forall s, good s -> Forall round rounds -> Phi s <= length rounds ->
+(* once rank 0 has left its loop, Phi(s) weak rounds complete the call *)
+Theorem late_wrounds_finish rounds : forall s, good s -> Forall wround rounds -> Phi s <= length rounds ->
   final (run (concat rounds) s) = true.
 Proof.
   induction rounds as [|l rounds IH]; intros s G F B.
@@ -271,6 +280,13 @@ Proof.
     destruct (round_progress (seq 0 n) s G (Permutation_refl _) Fn) as (_ & D). cbn [length] in B. lia.
   - inversion F as [|? ? Rl Fr]; subst. cbn [concat]. rewrite run_app'. destruct (final s) eqn:Fn.
     + rewrite (final_stable l s Fn). rewrite (final_stable (concat rounds) s Fn). exact Fn.
-    + destruct (round_progress l s G Rl Fn) as (G1 & D). apply (IH _ G1 Fr). cbn [length] in B. lia.
+    + destruct (wround_progress l s G Rl Fn) as (G1 & D). apply (IH _ G1 Fr). cbn [length] in B. lia.
+Qed.
+(* ... in particular Phi(s) rounds that are permutations of the ranks *)
+Theorem late_rounds_finish rounds : forall s, good s -> Forall round rounds -> Phi s <= length rounds ->
+  final (run (concat rounds) s) = true.
+Proof.
+  intros s G F B. apply late_wrounds_finish; [exact G| |exact B]. apply Forall_forall. intros l Hl. apply round_wround.
+  rewrite Forall_forall in F. apply F. exact Hl.
 Qed.
 End Fair.
